@@ -1,20 +1,25 @@
 ------------------------------ MODULE MC_C03 ------------------------------
 (* C03: symmetric monoidal category laws up to isomorphism.                 *)
 EXTENDS Domains, Emit
-CONSTANTS N3, N2, N4, E, A, I, NL, EL, TL, TNL, NL4
+CONSTANTS N3, N2, N4, E, A, I, NL, EL, TL, TNL, NL4, MidN, MidI
 VARIABLES stage, kind, r
 vars == <<stage, kind, r>>
 D3 == Diagrams(N3, E, A, I, NL, EL)
 D2 == Diagrams(N2, E, A, I, NL, EL)
 D4 == Diagrams(N4, E, A, I, NL4, EL)
 Types == SeqsUpTo(TNL, TL)
+\* associativity with a discrete middle operand on more nodes and longer interfaces (non-injective, repeated
+\* and unhit nodes: "fuse", "copy", "discard"-like spiders), outer operands with interfaces of the same length
+DMid == Diagrams(MidN, 0, 0, MidI, NL4, EL)
+DOut == Diagrams(1, E, A, MidI, NL4, EL)
 P == <<"C03", "C05">>
 Init == stage = 0 /\ kind = "none" /\ r = <<>>
-Start == stage = 0 /\ kind' \in {"assoc", "unit", "interchange", "twistnat", "types"} /\ r' = r /\ stage' = 1
-Dom == CASE kind = "assoc" -> D3 [] kind = "unit" -> D2 [] kind = "interchange" -> D4 [] kind = "twistnat" -> D2 [] kind = "types" -> Types [] OTHER -> {}
-Depth == CASE kind = "assoc" -> 3 [] kind = "unit" -> 1 [] kind = "interchange" -> 4 [] kind = "twistnat" -> 2 [] kind = "types" -> 3 [] OTHER -> 99
+Start == stage = 0 /\ kind' \in {"assoc", "unit", "interchange", "twistnat", "types", "assocmid"} /\ r' = r /\ stage' = 1
+Dom == CASE kind = "assocmid" -> (IF stage = 2 THEN DMid ELSE DOut) [] kind = "assoc" -> D3 [] kind = "unit" -> D2 [] kind = "interchange" -> D4 [] kind = "twistnat" -> D2 [] kind = "types" -> Types [] OTHER -> {}
+Depth == CASE kind = "assocmid" -> 3 [] kind = "assoc" -> 3 [] kind = "unit" -> 1 [] kind = "interchange" -> 4 [] kind = "twistnat" -> 2 [] kind = "types" -> 3 [] OTHER -> 99
 Emits(rr) ==
-  CASE kind = "assoc" -> EmitCase("law.assoc", P, [f |-> Pack(rr[1]), g |-> Pack(rr[2]), h |-> Pack(rr[3])])
+  CASE kind = "assocmid" -> EmitCase("law.assoc", P, [f |-> Pack(rr[1]), g |-> Pack(rr[2]), h |-> Pack(rr[3])])
+    [] kind = "assoc" -> EmitCase("law.assoc", P, [f |-> Pack(rr[1]), g |-> Pack(rr[2]), h |-> Pack(rr[3])])
     [] kind = "unit" -> EmitCase("law.unit", P, [f |-> Pack(rr[1])])
     [] kind = "interchange" -> EmitCase("law.interchange", P, [f |-> Pack(rr[1]), g |-> Pack(rr[2]), h |-> Pack(rr[3]), k |-> Pack(rr[4])])
     [] kind = "twistnat" -> EmitCase("law.twist_natural", P, [f |-> Pack(rr[1]), g |-> Pack(rr[2])])
@@ -31,7 +36,7 @@ Done == stage = Depth + 1
 C(f, g) == ComposeRef(f, g)
 T(f, g) == TensorRef(f, g)
 Laws ==
-  /\ (Done /\ kind = "assoc" /\ Composable(r[1], r[2]) /\ Composable(r[2], r[3]) =>
+  /\ (Done /\ kind \in {"assoc", "assocmid"} /\ Composable(r[1], r[2]) /\ Composable(r[2], r[3]) =>
         /\ Composable(C(r[1], r[2]), r[3]) /\ Composable(r[1], C(r[2], r[3]))
         /\ Iso(C(C(r[1], r[2]), r[3]), C(r[1], C(r[2], r[3]))))
   /\ (Done /\ kind = "unit" => Iso(C(IdentityRef(SrcType(r[1])), r[1]), r[1]) /\ Iso(C(r[1], IdentityRef(TgtType(r[1]))), r[1]))
